@@ -24,6 +24,7 @@ pub enum OwnN {
     Steep { c: f64 },                          // -c sum x^4
     HalfLine,                                  // sum ln x - x
     SqrtLine,                                  // sum ln sqrt(x) - x: log-density AND gradient are NaN for x < 0
+    Cliffs { cell: f64, levels: Vec<f64>, omega2: f64, kappa: f64 },
 }
 impl OwnN {
     pub fn logp(&self, x: &[f64]) -> f64 {
@@ -39,6 +40,7 @@ impl OwnN {
             OwnN::Steep { c } => -c * x.iter().map(|t| t.powi(4)).sum::<f64>(),
             OwnN::HalfLine => x.iter().map(|v| v.ln() - v).sum(),
             OwnN::SqrtLine => x.iter().map(|v| v.sqrt().ln() - v).sum(),
+            OwnN::Cliffs { cell, levels, omega2, kappa } => cliff_level(x[0], *cell, levels) - 0.5 * kappa * x[0] * x[0] - 0.5 * omega2 * x[1] * x[1],
         }
     }
     pub fn grad(&self, x: &[f64]) -> Vec<f64> {
@@ -56,6 +58,7 @@ impl OwnN {
             OwnN::Steep { c } => x.iter().map(|t| -4.0 * c * t.powi(3)).collect(),
             OwnN::HalfLine => x.iter().map(|v| 1.0 / v - 1.0).collect(),
             OwnN::SqrtLine => x.iter().map(|v| 0.5 / (v.sqrt() * v.sqrt()) - 1.0).collect(),
+            OwnN::Cliffs { omega2, kappa, .. } => vec![-kappa * x[0], -omega2 * x[1]],
         }
     }
 }
@@ -99,6 +102,36 @@ pub struct HalfLineN;
 impl<T: Float, B: AutodiffBackend> GradientTarget<T, B> for HalfLineN {
     fn unnorm_logp(&self, x: Tensor<B, 1>) -> Tensor<B, 1> {
         (x.clone().log() - x).sum()
+    }
+}
+
+/// A landscape with cliffs that exert no force: log p(a, b) = L(cell of a) - kappa a^2 / 2 - omega^2 b^2 / 2 with the
+/// scripted gradient (-kappa a, -omega^2 b) (the jumps of L are NOT in the gradient).  The slice pattern along a
+/// trajectory is the periodic level pattern sampled along a slow oscillation in a: slice holes in the middle of a tree,
+/// isolated admissible points, divergence walls -- patterns that smooth targets almost never produce.  The two weak
+/// oscillators guarantee a U-turn within half a period (without them the trajectory would be doubled for ever).
+#[derive(Clone)]
+pub struct Cliffs {
+    pub cell: f64,
+    pub levels: Vec<f64>,
+    pub omega2: f64,
+    pub kappa: f64,
+}
+pub fn cliff_level(a: f64, cell: f64, levels: &[f64]) -> f64 {
+    if !a.is_finite() {
+        return f64::NAN;
+    }
+    levels[((a / cell).floor() as i64).rem_euclid(levels.len() as i64) as usize]
+}
+impl<B: AutodiffBackend> GradientTarget<f64, B> for Cliffs {
+    fn unnorm_logp(&self, x: Tensor<B, 1>) -> Tensor<B, 1> {
+        self.unnorm_logp_and_grad(x).0
+    }
+    fn unnorm_logp_and_grad(&self, x: Tensor<B, 1>) -> (Tensor<B, 1>, Tensor<B, 1>) {
+        let dev = x.device();
+        let p: Vec<f64> = x.into_data().convert::<f64>().to_vec::<f64>().unwrap();
+        let lp = cliff_level(p[0], self.cell, &self.levels) - 0.5 * self.kappa * p[0] * p[0] - 0.5 * self.omega2 * p[1] * p[1];
+        (Tensor::<B, 1>::from_data(TensorData::new(vec![lp], [1]), &dev), Tensor::<B, 1>::from_data(TensorData::new(vec![-self.kappa * p[0], -self.omega2 * p[1]], [2]), &dev))
     }
 }
 
